@@ -54,16 +54,26 @@ type w1Fail struct {
 
 type w1RepGen struct{ rep, gen int }
 
+// w1SlowKey names one row of the low-resolution metric: the agent that reported it and the number of
+// the second (of the run, from 1) in which the workload applied the event. The agent keeps such a row
+// in a bucket up to 2*resolution seconds ahead of its clock.
+type w1SlowKey struct {
+	a   int
+	seq int32
+}
+
 type w1Oracle struct {
-	marker    map[w1AT]int          // workload applied the marker of (a,T) to this agent generation
-	uniq      map[w1UniqKey][]int64 // values the workload sent for a unique-kind key, per reporting agent
-	wire      map[w1AT]*w1Payload   // the payload carrying the workload rows of (a,T), once seen on the wire
-	payloads  map[string]*w1Payload // by content
-	acked     map[w1AT]bool
-	storedBy  map[w1RepGen]map[w1AT]int // stored bodies holding EVERY row of the second's payload
-	storedAny map[w1AT]int
-	partial   map[w1AT]int  // stored bodies that hold the second's marker row but lack other rows of its payload
-	crashLost map[w1AT]bool // lost with a killed agent, within what the crash model allows
+	marker     map[w1AT]int          // workload applied the marker of (a,T) to this agent generation
+	uniq       map[w1UniqKey][]int64 // values the workload sent for a unique-kind key, per reporting agent
+	wire       map[w1AT]*w1Payload   // the payload carrying the workload rows of (a,T), once seen on the wire
+	payloads   map[string]*w1Payload // by content
+	acked      map[w1AT]bool
+	storedBy   map[w1RepGen]map[w1AT]int // stored bodies holding EVERY row of the second's payload
+	storedAny  map[w1AT]int
+	partial    map[w1AT]int      // stored bodies that hold the second's marker row but lack other rows of its payload
+	crashLost  map[w1AT]bool     // lost with a killed agent, within what the crash model allows
+	slow       map[w1SlowKey]int // low-resolution rows applied by the workload -> stored bodies that contain them
+	handedOver map[w1AT]bool     // marker seconds a gracefully stopped agent process left on its disk cache for its successor
 
 	// net_corrupt_request (simulator facts only, never the warning text):
 	corruptAcked    map[w1AT]bool // a discard answer to a request the simulator damaged reached the live agent: deliberately rejected as undecodable
@@ -91,6 +101,8 @@ func (o *w1Oracle) init(w *w1World) {
 	o.storedAny = map[w1AT]int{}
 	o.partial = map[w1AT]int{}
 	o.crashLost = map[w1AT]bool{}
+	o.handedOver = map[w1AT]bool{}
+	o.slow = map[w1SlowKey]int{}
 	o.corruptAcked = map[w1AT]bool{}
 	o.intactDelivered = map[w1AT]int{}
 	o.intactAccepted = map[w1AT]int{}
@@ -475,6 +487,13 @@ func (o *w1Oracle) process(w *w1World, rec *w1Rec) (fails []w1Fail) {
 		fails = append(fails, o.checkBody(w, rec)...)
 		if rec.stored {
 			w.r.Extra["clickhouse_bodies_stored"]++
+			for _, k := range rec.body.slow {
+				if _, ok := o.slow[k]; ok {
+					o.slow[k]++
+				} else {
+					w.r.Probes["low_resolution_row_stored_that_the_workload_never_sent"]++
+				}
+			}
 			m := o.storedBy[w1RepGen{rec.replica, rec.repGen}]
 			if m == nil {
 				m = map[w1AT]int{}
@@ -848,6 +867,78 @@ func (o *w1Oracle) agentCrashed(w *w1World, inst *w1Inst, image string) {
 	o.checkForgotten(w, inst, held, "agent_restart")
 }
 
+// agentStoppedGracefully runs at the quiescent instant at which a gracefully stopping agent process
+// exits (after WaitPreprocessor). C01 (2) for a graceful stop: everything the process still buffered
+// must be on its disk cache now, also the seconds that never reached the wire (FlushAllData saves the
+// whole receive queue, not-yet-due seconds included). The one exception main() itself makes: a recent
+// send still outstanding after WaitRecentSenders gave up (10 s) dies with the process, and its second is
+// on disk only with SaveSecondsImmediately.
+func (o *w1Oracle) agentStoppedGracefully(w *w1World, inst *w1Inst, image string) {
+	onDisk := map[uint32]bool{}
+	for _, t := range w1DiskSeconds(image, filepath.Join(w.dir, "scratch-read")) {
+		onDisk[t] = true
+	}
+	nowUnix := uint32(time.Now().Unix())
+	var fails []w1Fail
+	w.mu.Lock()
+	var inflight []uint32
+	for call := range inst.calls {
+		if call.kind == w1KindRecent && !onDisk[call.T] && !o.crashLost[w1AT{inst.agent, call.T}] {
+			inflight = append(inflight, call.T)
+		}
+	}
+	w.mu.Unlock()
+	sort.Slice(inflight, func(i, j int) bool { return inflight[i] < inflight[j] })
+	for _, t := range inflight {
+		at := w1AT{inst.agent, t}
+		if o.marker[at] == 0 {
+			continue // no workload rows in that second
+		}
+		// The aggregator holds the request and normally stores it, but the exiting process forgets a
+		// second nobody acknowledged: reported (recorded in known_findings.json, not repaired).
+		w.r.Probes["second_unsaved_and_in_flight_when_graceful_exit_gave_up_waiting"]++
+		fails = append(fails, w1Fail{"C01", "forgotten_without_ack", "agent_graceful_stop:recent_in_flight", fmt.Sprintf("agent%d g%d exits gracefully at %d while its recent send of second %d is still outstanding (WaitRecentSenders gave up) and the second is not on the disk cache: the process forgets it without an ack", inst.agent, inst.gen, nowUnix, t)})
+		o.crashLost[at] = true
+	}
+	var ats []w1AT
+	for at, gen := range o.marker {
+		if at.a == inst.agent && gen == inst.gen {
+			ats = append(ats, at)
+		}
+	}
+	sort.Slice(ats, func(i, j int) bool { return ats[i].T < ats[j].T })
+	future := 0
+	for _, at := range ats {
+		if onDisk[at.T] {
+			o.handedOver[at] = true
+			if at.T >= nowUnix {
+				future++
+			}
+			continue
+		}
+		if o.wire[at] != nil || o.crashLost[at] {
+			continue // crossed the wire: checkForgotten below
+		}
+		if w.cfg.faulty && at.T+uint32(w.cfg.window) < nowUnix {
+			w.r.Probes["second_dropped_outside_window"]++
+			continue
+		}
+		fails = append(fails, w1Fail{"C01", "forgotten_without_ack", "agent_graceful_stop:never_sent", fmt.Sprintf("agent%d g%d exits gracefully at %d: second %d received workload events, never reached the wire and is not on the disk cache after FlushAllData/WaitPreprocessor", inst.agent, inst.gen, nowUnix, at.T)})
+	}
+	if future > 0 {
+		w.r.Probes["graceful_stop_saved_seconds_not_yet_due"] += future
+	}
+	w.report(fails)
+	if w.r.Failed() {
+		return
+	}
+	held := map[uint32]string{}
+	for t := range onDisk {
+		held[t] = "disk"
+	}
+	o.checkForgotten(w, inst, held, "agent_graceful_stop")
+}
+
 func (o *w1Oracle) excused(w *w1World, at w1AT, nowUnix uint32) bool {
 	if o.crashLost[at] {
 		return true
@@ -868,6 +959,13 @@ func (o *w1Oracle) allStored(w *w1World) bool {
 	for at := range o.marker {
 		if o.storedAny[at] == 0 && !o.excused(w, at, nowUnix) {
 			return false
+		}
+	}
+	if !w.cfg.faulty {
+		for _, n := range o.slow {
+			if n == 0 {
+				return false
+			}
 		}
 	}
 	return true
@@ -932,6 +1030,34 @@ func (o *w1Oracle) final(w *w1World) {
 			}
 			fails = append(fails, w1Fail{"C01", "not_stored_after_drain", sig, fmt.Sprintf("second %d of agent%d (second %d of the run) is in no stored insert body %d s after the workload ended and faults stopped (%s); window %d s, now %d",
 				at.T, at.a, at.T-o.startUnix, nowUnix-o.startUnix-uint32(w.cfg.runLen), why, w.cfg.window, nowUnix)})
+		}
+	}
+	// C01 (3) for the rows of the low-resolution metric, which wait in buckets up to a minute ahead of the
+	// agent's clock (a graceful stop saves those buckets to the disk cache before they are due). Decided
+	// in fault-free runs only, where nothing may be lost at all: graceful restarts and handler pauses are
+	// no faults. Faulty runs only count.
+	var slow []w1SlowKey
+	for k, n := range o.slow {
+		if n == 0 {
+			slow = append(slow, k)
+		} else {
+			w.r.Extra["c01_low_resolution_rows_stored"]++
+		}
+	}
+	sort.Slice(slow, func(i, j int) bool {
+		if slow[i].seq != slow[j].seq {
+			return slow[i].seq < slow[j].seq
+		}
+		return slow[i].a < slow[j].a
+	})
+	for i, k := range slow {
+		if w.cfg.faulty {
+			w.r.Probes["low_resolution_row_never_stored_in_faulty_run"]++
+			continue
+		}
+		if i < 3 {
+			fails = append(fails, w1Fail{"C01", "not_stored_after_drain", "fault_free:low_resolution_row", fmt.Sprintf("the low-resolution (%d s) row agent%d reported in second %d of the run is in no stored insert body %d s after the workload ended, in a run without faults (graceful agent stops so far: %d)",
+				w1SlowResolution, k.a, k.seq, nowUnix-o.startUnix-uint32(w.cfg.runLen), w.graceful)})
 		}
 	}
 	w.report(fails)
